@@ -110,7 +110,7 @@ Section CtlProofs.
   Lemma ctl_inv_update st t s f an :
     ctl_inv st -> ctl_find t (st_sess st) = Some s -> nh_inv D an ->
     (forall x, ss_sid (f x) = ss_sid x) -> ctl_sess_ok (f s) ->
-    ctl_inv {| st_cfgs := st_cfgs st; st_alive := st_alive st; st_busy := st_busy st; st_closedch := st_closedch st; st_next_chan := st_next_chan st; st_next_sid := st_next_sid st;
+    ctl_inv {| st_cfgs := st_cfgs st; st_alive := st_alive st; st_busy := st_busy st; st_closedch := st_closedch st; st_deadctl := st_deadctl st; st_next_chan := st_next_chan st; st_next_sid := st_next_sid st;
                st_sess := ctl_update t f (st_sess st); st_an := an |}.
   Proof.
     intros [H1 [H2 [H3 H4]]] Hf Han Hsid Hok. unfold ctl_inv; cbn. split; [|split; [|split]].
@@ -215,6 +215,10 @@ Section CtlProofs.
       destruct success; [|injection H as <- <-; exact Hinv].
       destruct (ss_reco s) as [[[k m] i]|]; injection H as <- <-; [|exact Hinv].
       unfold ctl_inv; cbn. repeat split; try assumption. now apply nh_report_inv.
+    - (* NewProxy *)
+      destruct (ctl_zin ctl (st_deadctl st) || (ctl <? 0)); [discriminate|].
+      destruct (ctl_find_cfg name (st_cfgs st)); injection H as <- <-; exact Hinv.
+    - (* CtlEnd *) destruct (ctl <? 0); [discriminate|]. injection H as <- <-. exact Hinv.
   Qed.
 
   Lemma ctl_run_inv evs : forall st, ctl_inv st -> ctl_inv (fst (ctl_run D auth st evs)).
@@ -353,7 +357,7 @@ Section CtlProofs.
     ctl_counts_ok st outs -> ctl_find t (st_sess st) = Some s -> (forall x, ss_sid (f x) = ss_sid x) ->
     (forall role, ctl_cnt role t o = ctl_sent role (ss_pc (f s)) - ctl_sent role (ss_pc s)) ->
     (forall role t', t' <> t -> ctl_cnt role t' o = 0) ->
-    ctl_counts_ok {| st_cfgs := st_cfgs st; st_alive := st_alive st; st_busy := st_busy st; st_closedch := st_closedch st; st_next_chan := st_next_chan st; st_next_sid := st_next_sid st;
+    ctl_counts_ok {| st_cfgs := st_cfgs st; st_alive := st_alive st; st_busy := st_busy st; st_closedch := st_closedch st; st_deadctl := st_deadctl st; st_next_chan := st_next_chan st; st_next_sid := st_next_sid st;
                      st_sess := ctl_update t f (st_sess st); st_an := an |} (outs ++ o).
   Proof.
     intros Hc Ef Hf H1 H2 role t'. rewrite ctl_cnt_app. unfold ctl_sent_of; cbn. rewrite ctl_find_update by exact Hf.
@@ -443,6 +447,9 @@ Section CtlProofs.
       destruct (ctl_lookup t (st_sess st)) as [s|]; [|injection H as <- <-; (apply (ctl_counts_same_sess st); [assumption|reflexivity])].
       destruct success; [|injection H as <- <-; (apply (ctl_counts_same_sess st); [assumption|reflexivity])].
       destruct (ss_reco s) as [[[k m] i]|]; injection H as <- <-; (apply (ctl_counts_same_sess st); [assumption|reflexivity]).
+    - destruct (ctl_zin ctl (st_deadctl st) || (ctl <? 0)); [discriminate|].
+      destruct (ctl_find_cfg name (st_cfgs st)); injection H as <- <-; intros role t; rewrite ctl_cnt_app; cbn; rewrite Z.add_0_r; apply Hc.
+    - destruct (ctl <? 0); [discriminate|]. injection H as <- <-. (apply (ctl_counts_same_sess st); [assumption|reflexivity]).
   Qed.
 
   Lemma ctl_run_counts evs : forall st acc,
@@ -485,10 +492,10 @@ Section CtlProofs.
     intros H [->|Hin]; [|now apply IH]. intros Heq. rewrite Heq, nh_bytes_eqb_refl in E. discriminate.
   Qed.
 
-  Lemma ctl_find_cfg_remove_other name n l : ctl_find_cfg name l = None -> ctl_find_cfg name (ctl_remove_cfg n l) = None.
+  Lemma ctl_find_cfg_filter name (p : ctl_cfg -> bool) l : ctl_find_cfg name l = None -> ctl_find_cfg name (filter p l) = None.
   Proof.
     induction l as [|c r IH]; cbn; [reflexivity|]. destruct (bytes_eqb name (cc_name c)) eqn:E; [discriminate|].
-    intros H. destruct (bytes_eqb n (cc_name c)); cbn; [now apply IH|]. rewrite E. now apply IH.
+    intros H. destruct (p c); cbn; [rewrite E|]; now apply IH.
   Qed.
 
   (* Close can be taken in EVERY state (whatever the hand-over goroutine is doing) and leaves the name unregistered *)
@@ -497,73 +504,97 @@ Section CtlProofs.
                 st_sess st' = st_sess st.
   Proof. eexists. cbn. split; [reflexivity|]. cbn. split; [apply ctl_find_cfg_remove|reflexivity]. Qed.
 
-  (* only a new ListenClient of that name (a new proxy) registers it again *)
+  (* what one step can do to the registrations and to the set of ended controls *)
+  Definition ctl_cfg_change (st : ctl_state) (e : ctl_ev) (st' : ctl_state) : Prop :=
+    (st_cfgs st' = st_cfgs st /\ st_deadctl st' = st_deadctl st) \/
+    (exists p, st_cfgs st' = filter p (st_cfgs st) /\ st_deadctl st' = st_deadctl st) \/
+    (exists c, st_cfgs st' = c :: st_cfgs st /\ st_deadctl st' = st_deadctl st /\
+       ((cc_owner c = -1 /\ exists sk allow, e = EvListen (cc_name c) sk allow) \/
+        (0 <= cc_owner c /\ ctl_zin (cc_owner c) (st_deadctl st) = false /\
+         exists sk allow, e = EvNewProxy (cc_owner c) (cc_name c) sk allow))) \/
+    (exists k, 0 <= k /\ e = EvCtlEnd k /\ st_cfgs st' = filter (fun c => negb (cc_owner c =? k)) (st_cfgs st) /\
+       st_deadctl st' = k :: st_deadctl st).
+
+  Lemma ctl_step_cfg_change st e st' o : ctl_step D auth st e = Some (st', o) -> ctl_cfg_change st e st'.
+  Proof.
+    intros H. unfold ctl_cfg_change. destruct e; cbn in H.
+    - destruct (ctl_find_cfg name (st_cfgs st)); injection H as <- <-; [left; split; reflexivity|].
+      right. right. left. eexists. cbn. split; [reflexivity|]. split; [reflexivity|]. left. split; [reflexivity|]. eauto.
+    - injection H as <- <-. right. left. eexists. split; reflexivity.
+    - injection H as <- <-. right. left. eexists. split; reflexivity.
+    - destruct (ctl_zin ch (st_busy st)); [|discriminate]. injection H as <- <-. left. split; reflexivity.
+    - destruct (ctl_zin ch (st_alive st) && ctl_zin ch (st_closedch st)); [|discriminate]. injection H as <- <-. left. split; reflexivity.
+    - left. revert H. destruct (vm_precheck vm); repeat match goal with |- context [match ?x with _ => _ end] => destruct x end;
+        intros [= <- _]; split; reflexivity.
+    - left. repeat match type of H with
+           | match ?x with _ => _ end = _ => destruct x eqn:?; try discriminate
+           | (if ?x then _ else _) = _ => destruct x eqn:?; try discriminate
+           end; injection H as <- <-; split; reflexivity.
+    - left. repeat match type of H with
+           | match ?x with _ => _ end = _ => destruct x eqn:?; try discriminate
+           | (if ?x then _ else _) = _ => destruct x eqn:?; try discriminate
+           end; injection H as <- <-; split; reflexivity.
+    - left. repeat match type of H with
+           | match ?x with _ => _ end = _ => destruct x eqn:?; try discriminate
+           | (if ?x then _ else _) = _ => destruct x eqn:?; try discriminate
+           end; injection H as <- <-; split; reflexivity.
+    - left. repeat match type of H with
+           | match ?x with _ => _ end = _ => destruct x eqn:?; try discriminate
+           | (if ?x then _ else _) = _ => destruct x eqn:?; try discriminate
+           end; injection H as <- <-; split; reflexivity.
+    - left. repeat match type of H with
+           | match ?x with _ => _ end = _ => destruct x eqn:?; try discriminate
+           | (if ?x then _ else _) = _ => destruct x eqn:?; try discriminate
+           end; injection H as <- <-; split; reflexivity.
+    - left. repeat match type of H with
+           | match ?x with _ => _ end = _ => destruct x eqn:?; try discriminate
+           | (if ?x then _ else _) = _ => destruct x eqn:?; try discriminate
+           end; injection H as <- <-; split; reflexivity.
+    - left. repeat match type of H with
+           | match ?x with _ => _ end = _ => destruct x eqn:?; try discriminate
+           | (if ?x then _ else _) = _ => destruct x eqn:?; try discriminate
+           end; injection H as <- <-; split; reflexivity.
+    - left. repeat match type of H with
+           | match ?x with _ => _ end = _ => destruct x eqn:?; try discriminate
+           | (if ?x then _ else _) = _ => destruct x eqn:?; try discriminate
+           end; injection H as <- <-; split; reflexivity.
+    - left. repeat match type of H with
+           | match ?x with _ => _ end = _ => destruct x eqn:?; try discriminate
+           | (if ?x then _ else _) = _ => destruct x eqn:?; try discriminate
+           end; injection H as <- <-; split; reflexivity.
+    - left. repeat match type of H with
+           | match ?x with _ => _ end = _ => destruct x eqn:?; try discriminate
+           | (if ?x then _ else _) = _ => destruct x eqn:?; try discriminate
+           end; injection H as <- <-; split; reflexivity.
+    - (* NewProxy *)
+      destruct (ctl_zin ctl (st_deadctl st)) eqn:Ed; [discriminate|]. destruct (ctl <? 0) eqn:En; [discriminate|]. apply Z.ltb_ge in En. cbn in H.
+      destruct (ctl_find_cfg name (st_cfgs st)); injection H as <- <-; [left; split; reflexivity|].
+      right. right. left. eexists. cbn. split; [reflexivity|]. split; [reflexivity|]. right. cbn. split; [lia|]. split; [exact Ed|]. eauto.
+    - (* CtlEnd *)
+      destruct (ctl <? 0) eqn:En; [discriminate|]. apply Z.ltb_ge in En. injection H as <- <-. right. right. right. exists ctl. cbn.
+      split; [lia|]. split; [reflexivity|]. split; reflexivity.
+  Qed.
+
+  (* an event that registers [name] *)
+  Definition ctl_registers (e : ctl_ev) (name : bytes) : Prop :=
+    (exists sk allow, e = EvListen name sk allow) \/ (exists c sk allow, e = EvNewProxy c name sk allow).
+
+  (* only a new registration of that name lists it again *)
   Lemma ctl_unregistered_stays st e st' o name :
     ctl_find_cfg name (st_cfgs st) = None -> ctl_step D auth st e = Some (st', o) ->
-    (forall sk allow, e <> EvListen name sk allow) -> ctl_find_cfg name (st_cfgs st') = None.
+    ~ ctl_registers e name -> ctl_find_cfg name (st_cfgs st') = None.
   Proof.
-    intros Hn H Hne.
-    assert (Hcases : st_cfgs st' = st_cfgs st \/ (exists n, st_cfgs st' = ctl_remove_cfg n (st_cfgs st)) \/
-                     (exists n sk allow ch, e = EvListen n sk allow /\
-                        st_cfgs st' = {| cc_name := n; cc_sk := sk; cc_allow := allow; cc_chan := ch |} :: st_cfgs st)).
-    { destruct e; cbn in H.
-      - destruct (ctl_find_cfg name0 (st_cfgs st)); injection H as <- <-; [left; reflexivity|].
-        right. right. eexists _, _, _, _. split; reflexivity.
-      - injection H as <- <-. right. left. eexists. reflexivity.
-      - injection H as <- <-. right. left. eexists. reflexivity.
-      - destruct (ctl_zin ch (st_busy st)); [|discriminate]. injection H as <- <-. left. reflexivity.
-      - destruct (ctl_zin ch (st_alive st) && ctl_zin ch (st_closedch st)); [|discriminate]. injection H as <- <-. left. reflexivity.
-      - left. revert H. destruct (vm_precheck vm); repeat match goal with |- context [match ?x with _ => _ end] => destruct x end;
-          intros [= <- _]; reflexivity.
-      - left. repeat match type of H with
-             | match ?x with _ => _ end = _ => destruct x eqn:?; try discriminate
-             | (if ?x then _ else _) = _ => destruct x eqn:?; try discriminate
-             end; injection H as <- <-; reflexivity.
-      - left. repeat match type of H with
-             | match ?x with _ => _ end = _ => destruct x eqn:?; try discriminate
-             | (if ?x then _ else _) = _ => destruct x eqn:?; try discriminate
-             end; injection H as <- <-; reflexivity.
-      - left. repeat match type of H with
-             | match ?x with _ => _ end = _ => destruct x eqn:?; try discriminate
-             | (if ?x then _ else _) = _ => destruct x eqn:?; try discriminate
-             end; injection H as <- <-; reflexivity.
-      - left. repeat match type of H with
-             | match ?x with _ => _ end = _ => destruct x eqn:?; try discriminate
-             | (if ?x then _ else _) = _ => destruct x eqn:?; try discriminate
-             end; injection H as <- <-; reflexivity.
-      - left. repeat match type of H with
-             | match ?x with _ => _ end = _ => destruct x eqn:?; try discriminate
-             | (if ?x then _ else _) = _ => destruct x eqn:?; try discriminate
-             end; injection H as <- <-; reflexivity.
-      - left. repeat match type of H with
-             | match ?x with _ => _ end = _ => destruct x eqn:?; try discriminate
-             | (if ?x then _ else _) = _ => destruct x eqn:?; try discriminate
-             end; injection H as <- <-; reflexivity.
-      - left. repeat match type of H with
-             | match ?x with _ => _ end = _ => destruct x eqn:?; try discriminate
-             | (if ?x then _ else _) = _ => destruct x eqn:?; try discriminate
-             end; injection H as <- <-; reflexivity.
-      - left. repeat match type of H with
-             | match ?x with _ => _ end = _ => destruct x eqn:?; try discriminate
-             | (if ?x then _ else _) = _ => destruct x eqn:?; try discriminate
-             end; injection H as <- <-; reflexivity.
-      - left. repeat match type of H with
-             | match ?x with _ => _ end = _ => destruct x eqn:?; try discriminate
-             | (if ?x then _ else _) = _ => destruct x eqn:?; try discriminate
-             end; injection H as <- <-; reflexivity.
-      - left. repeat match type of H with
-             | match ?x with _ => _ end = _ => destruct x eqn:?; try discriminate
-             | (if ?x then _ else _) = _ => destruct x eqn:?; try discriminate
-             end; injection H as <- <-; reflexivity. }
-    destruct Hcases as [->|[[n ->]|(n & sk & allow & ch & -> & ->)]].
+    intros Hn H Hne. destruct (ctl_step_cfg_change _ _ _ _ H) as [[-> _]|[[p [-> _]]|[[c [-> [_ Hc]]]|[k [_ [_ [-> _]]]]]]].
     - exact Hn.
-    - now apply ctl_find_cfg_remove_other.
-    - cbn. destruct (bytes_eqb name n) eqn:E; [|exact Hn].
-      apply nh_bytes_eqb_eq in E. subst n. exfalso. eapply Hne. reflexivity.
+    - now apply ctl_find_cfg_filter.
+    - cbn. destruct (bytes_eqb name (cc_name c)) eqn:E; [|exact Hn].
+      apply nh_bytes_eqb_eq in E. exfalso. apply Hne. unfold ctl_registers. rewrite E.
+      destruct Hc as [[_ [sk [allow ->]]]|[_ [_ [sk [allow ->]]]]]; [left|right]; eauto.
+    - now apply ctl_find_cfg_filter.
   Qed.
 
   Lemma ctl_unregistered_run evs : forall st name,
-    ctl_find_cfg name (st_cfgs st) = None -> Forall (fun e => forall sk allow, e <> EvListen name sk allow) evs ->
+    ctl_find_cfg name (st_cfgs st) = None -> Forall (fun e => ~ ctl_registers e name) evs ->
     ctl_find_cfg name (st_cfgs (fst (ctl_run D auth st evs))) = None.
   Proof.
     induction evs as [|e r IH]; intros st name Hn Hf; cbn; [exact Hn|]. inversion Hf as [|? ? He Hr]; subst.
@@ -582,12 +613,61 @@ Section CtlProofs.
      proxy of that name registers) -- whatever state the hand-over goroutine of the closed proxy is in *)
   Lemma ctl_no_session_for_closed_proxy st name st1 o1 evs vm tr user st3 o3 :
     ctl_step D auth st (EvProxyClose name) = Some (st1, o1) ->
-    Forall (fun e => forall sk allow, e <> EvListen name sk allow) evs ->
+    Forall (fun e => ~ ctl_registers e name) evs ->
     vm_proxy vm = name ->
     ctl_step D auth (fst (ctl_run D auth st1 evs)) (EvVisitor vm tr user) = Some (st3, o3) ->
     st3 = fst (ctl_run D auth st1 evs) /\ o3 = [OutReply tr (nh_err_resp (vm_tid vm) NeNoProxy)].
   Proof.
     intros Hc Hf Hv H. destruct (ctl_proxy_close st name) as [st1' [E [Hn _]]]. rewrite E in Hc. injection Hc as <- _.
     apply (ctl_visitor_unregistered _ vm tr user st3 o3); [|exact H]. rewrite Hv. now apply ctl_unregistered_run.
+  Qed.
+
+  (* ---- no registration outlives the control session that made it ---- *)
+  Definition ctl_owner_inv (st : ctl_state) : Prop :=
+    Forall (fun c => ctl_zin (cc_owner c) (st_deadctl st) = false) (st_cfgs st) /\ Forall (fun k => 0 <= k) (st_deadctl st).
+
+  Lemma ctl_zin_neg l : Forall (fun k => 0 <= k) l -> ctl_zin (-1) l = false.
+  Proof.
+    unfold ctl_zin. induction 1 as [|k r Hk Hr IH]; cbn [existsb]; [reflexivity|]. rewrite IH.
+    destruct (-1 =? k) eqn:E; [apply Z.eqb_eq in E; lia|reflexivity].
+  Qed.
+
+  Lemma ctl_owner_inv_init : ctl_owner_inv ctl_init.
+  Proof. split; constructor. Qed.
+
+  Lemma ctl_step_owner_inv st e st' o : ctl_owner_inv st -> ctl_step D auth st e = Some (st', o) -> ctl_owner_inv st'.
+  Proof.
+    intros [H1 H2] H. unfold ctl_owner_inv.
+    destruct (ctl_step_cfg_change _ _ _ _ H) as [[-> ->]|[[p [-> ->]]|[[c [-> [-> Hc]]]|[k [Hk [_ [-> ->]]]]]]].
+    - split; assumption.
+    - split; [|assumption]. apply Forall_forall. intros c Hin. apply filter_In in Hin. rewrite Forall_forall in H1. now apply H1.
+    - split; [|assumption]. constructor; [|assumption].
+      destruct Hc as [[-> _]|[_ [Hd _]]]; [now apply ctl_zin_neg|exact Hd].
+    - split; [|constructor; assumption]. apply Forall_forall. intros c Hin. apply filter_In in Hin. destruct Hin as [Hin Hne].
+      rewrite Forall_forall in H1. specialize (H1 _ Hin). unfold ctl_zin in *. cbn [existsb]. rewrite H1.
+      destruct (cc_owner c =? k); [cbn in Hne; discriminate Hne|reflexivity].
+  Qed.
+
+  Lemma ctl_run_owner_inv evs : forall st, ctl_owner_inv st -> ctl_owner_inv (fst (ctl_run D auth st evs)).
+  Proof.
+    induction evs as [|e r IH]; intros st Hst; cbn; [exact Hst|].
+    destruct (ctl_step D auth st e) as [[st' o]|] eqn:E.
+    - specialize (IH st' (ctl_step_owner_inv _ _ _ _ Hst E)). destruct (ctl_run D auth st' r). exact IH.
+    - now apply IH.
+  Qed.
+
+  (* the registration of a control that has ended is never enabled: NewProxy is handled inside that control's read loop *)
+  Lemma ctl_dead_control_cannot_register st k name sk allow :
+    ctl_zin k (st_deadctl st) = true -> ctl_step D auth st (EvNewProxy k name sk allow) = None.
+  Proof. intros H. cbn. rewrite H. reflexivity. Qed.
+
+  (* every schedule: whatever the controller lists was registered by a control that has not ended (or directly); in
+     particular after EvCtlEnd k nothing registered by k is listed, and a request naming such a proxy creates no session *)
+  Lemma ctl_listed_implies_owner_alive evs c :
+    let st := fst (ctl_run D auth ctl_init evs) in
+    In c (st_cfgs st) -> ctl_zin (cc_owner c) (st_deadctl st) = false.
+  Proof.
+    cbn. intros Hin. destruct (ctl_run_owner_inv evs ctl_init ctl_owner_inv_init) as [H _].
+    rewrite Forall_forall in H. now apply H.
   Qed.
 End CtlProofs.
